@@ -39,3 +39,80 @@ MUTANTS = [
 		of_rs_init();''', '''	if (of_rs_initialized != 0)
 		of_rs_init();''', 'R-INIT-BEFORE-USE'),
 ]
+
+
+def REV(name, props, sha, rule):
+    return dict(name=name, props=props if isinstance(props, list) else [props], rule=rule, expect=1, edits=[dict(revert=sha)])
+
+
+API = 'src/lib_common/of_openfec_api.c'
+RSAPI = 'src/lib_stable/reed-solomon_gf_2_8/of_reed-solomon_gf_2_8_api.c'
+RS2API = 'src/lib_stable/reed-solomon_gf_2_m/of_reed-solomon_gf_2_m_api.c'
+LDPCAPI = 'src/lib_stable/ldpc_staircase/of_ldpc_staircase_api.c'
+ITDEC = 'src/lib_common/linear_binary_codes_utils/it_decoding/of_it_decoding.c'
+MLDEC = 'src/lib_common/linear_binary_codes_utils/ml_decoding/of_ml_decoding.c'
+LDPCH = 'src/lib_stable/ldpc_staircase/of_ldpc_staircase.h'
+
+MUTANTS += [
+    # ---- repaired defects must be reported again when the repair is undone
+    REV('revert-log-table-comma', 'C14', '8d2d0b3', 'R-TABLES'),
+    REV('revert-ml-finish-truth', 'C10', '4c9fef2', 'R-FINISH-TRUTH'),
+    REV('revert-cb-null-fallback', 'C11', 'c9061ae', 'R-CB'),
+    REV('revert-ml-writeback-callback', 'C11', 'd741782', 'R-SRCSTORE'),
+    # ---- C01 / C10 / C11 / C02 / C04
+    M('dispatch-wrong-sibling', 'C01', API, 'status = of_rs_2_m_decode_with_new_symbol ( (of_rs_2_m_cb_t*) ses, new_symbol_buf, new_symbol_esi);',
+      'status = of_rs_decode_with_new_symbol ( (of_rs_cb_t*) ses, new_symbol_buf, new_symbol_esi);', 'R-DISPATCH'),
+    M('layout-member-inserted', ['C01', 'C04'], LDPCH, '	void**		tmp_tab_symbols;\n', '	UINT32		spare;\n	void**		tmp_tab_symbols;\n', 'R-LAYOUT'),
+    M('rs-dup-test-dropped', ['C01', 'C02'], RSAPI, '''	if (ofcb->available_symbols_tab[new_symbol_esi] != NULL)
+	{
+		/* duplicated symbol, ignore */''', '''	if (0 && ofcb->available_symbols_tab[new_symbol_esi] != NULL)
+	{
+		/* duplicated symbol, ignore */''', 'R-DUP'),
+    M('it-dup-test-dropped', ['C01', 'C04'], ITDEC, '	if (ofcb->encoding_symbols_tab[new_symbol_esi] != NULL)\n	{\n		OF_TRACE_LVL (1, ("%s: %s symbol (esi=%d) already received',
+      '	if (0 && ofcb->encoding_symbols_tab[new_symbol_esi] != NULL)\n	{\n		OF_TRACE_LVL (1, ("%s: %s symbol (esi=%d) already received', 'R-DUP'),
+    M('rs-setavail-stops-at-k', ['C01', 'C02'], RSAPI, '	for (i = 0; i < ofcb->nb_encoding_symbols; i++)\n	{\n		if ((ofcb->available_symbols_tab[i] = encoding_symbols_tab[i]) == NULL)',
+      '	for (i = 0; i < ofcb->nb_source_symbols; i++)\n	{\n		if ((ofcb->available_symbols_tab[i] = encoding_symbols_tab[i]) == NULL)', 'R-SETAVAIL'),
+    M('ldpc-setavail-skips-index', 'C01', LDPCAPI, '	for (i = 0; i < ofcb->nb_total_symbols; i++)\n	{\n		if (encoding_symbols_tab[i] == NULL)',
+      '	for (i = 1; i < ofcb->nb_total_symbols; i++)\n	{\n		if (encoding_symbols_tab[i] == NULL)', 'R-SETAVAIL'),
+    M('rs2m-below-k-returns-ok', ['C02', 'C10'], RS2API, '''("WARNING: nb received symbols < nb source symbols\\n"))
+			OF_EXIT_FUNCTION
+			return OF_STATUS_FAILURE;''', '''("WARNING: nb received symbols < nb source symbols\\n"))
+			OF_EXIT_FUNCTION
+			return OF_STATUS_OK;''', 'R-', count=1),
+    M('benign-dead-code-edit', ['C02', 'C10'], RS2API, '''		OF_PRINT_ERROR(("ERROR: nb received symbols < nb source symbols\\n"))
+		OF_EXIT_FUNCTION
+		return OF_STATUS_FAILURE;''', '''		OF_PRINT_ERROR(("ERROR: nb received symbols < nb source symbols\\n"))
+		OF_EXIT_FUNCTION
+		return OF_STATUS_OK;''', expect=0),
+    M('rs-trigger-at-k-minus-1', 'C02', RSAPI, '	if (ofcb->nb_available_symbols >= ofcb->nb_source_symbols)\n	{\n		/* we received a sufficient number',
+      '	if (ofcb->nb_available_symbols + 1 >= ofcb->nb_source_symbols)\n	{\n		/* we received a sufficient number', 'R-RS-THRESHOLD'),
+    M('rs-finished-set-early', ['C01', 'C10'], RSAPI, '	ofcb->available_symbols_tab[new_symbol_esi] = new_symbol;\n	ofcb->nb_available_symbols++;',
+      '	ofcb->available_symbols_tab[new_symbol_esi] = new_symbol;\n	ofcb->nb_available_symbols++;\n	if (ofcb->nb_available_symbols == ofcb->nb_source_symbols) ofcb->decoding_finished = true;', 'R-COMPLETE'),
+    M('ldpc-complete-scan-short', ['C01', 'C04', 'C10'], LDPCAPI, '	for (; ofcb->first_non_decoded < ofcb->nb_source_symbols; ofcb->first_non_decoded++)\n	{\n		if (ofcb->encoding_symbols_tab[ofcb->first_non_decoded] == NULL)\n		{\n			OF_TRACE_LVL (1, ("decoding not complete',
+      '	for (; ofcb->first_non_decoded + 1 < ofcb->nb_source_symbols; ofcb->first_non_decoded++)\n	{\n		if (ofcb->encoding_symbols_tab[ofcb->first_non_decoded] == NULL)\n		{\n			OF_TRACE_LVL (1, ("decoding not complete', 'R-COMPLETE'),
+    M('it-source-copied-not-stored', ['C10', 'C01'], ITDEC, '		ofcb->encoding_symbols_tab[new_symbol_esi] = new_symbol;\n		if (of_is_decoding_complete',
+      '		ofcb->encoding_symbols_tab[new_symbol_esi] = of_malloc (ofcb->encoding_symbol_length);\n		memcpy (ofcb->encoding_symbols_tab[new_symbol_esi], new_symbol, ofcb->encoding_symbol_length);\n		if (of_is_decoding_complete', 'R-SRCSTORE'),
+    M('rs-gettab-copies-n', 'C10', RSAPI, 'memcpy(source_symbols_tab, ofcb->available_symbols_tab, ofcb->nb_source_symbols * sizeof(void*));',
+      'memcpy(source_symbols_tab, ofcb->available_symbols_tab, ofcb->nb_encoding_symbols * sizeof(void*));', 'R-SRCPTR'),
+    M('cb-wrong-esi', 'C11', RSAPI, 'ofcb->encoding_symbol_length, tmp_idx);', 'ofcb->encoding_symbol_length, tmp_idx + 1);', 'R-CB'),
+    M('cb-size-swapped', 'C11', ITDEC, '										ofcb->context_4_callback,\n										ofcb->encoding_symbol_length,\n										decoded_symbol_esi)) != NULL)',
+      '										ofcb->context_4_callback,\n										decoded_symbol_esi,\n										ofcb->encoding_symbol_length)) != NULL)', 'R-CB'),
+    M('cb-for-received-symbol', 'C11', RSAPI, '''		if (*ass_buf != NULL)
+		{
+			/* nothing to do, this source symbol has already been received. */
+			continue;
+		}''', '''		if (0 && *ass_buf != NULL)
+		{
+			/* nothing to do, this source symbol has already been received. */
+			continue;
+		}''', 'R-', count=1),
+    M('ml-status-ok-after-solve-fail', 'C10', MLDEC, '''		OF_TRACE_LVL(0,("Solve dense system failed\\n"))
+		goto failure;''', '''		OF_TRACE_LVL(0,("Solve dense system failed\\n"))
+		return OF_STATUS_OK;''', 'R-'),
+    # behaviour-preserving edits must stay silent
+    M('benign-rs-dup-early-return', ['C01', 'C02', 'C10'], RSAPI, '''		OF_TRACE_LVL(2, ("of_rs_decode_with_new_symbol: symbol (esi=%d) duplicated\\n", new_symbol_esi));
+		goto end;''', '''		OF_TRACE_LVL(2, ("of_rs_decode_with_new_symbol: symbol (esi=%d) duplicated\\n", new_symbol_esi));
+		return OF_STATUS_OK;''', expect=0),
+    M('benign-api-trace', ['C01', 'C10'], API, '	if ( new_symbol_esi >= (((of_cb_t*) ses)->nb_source_symbols + ((of_cb_t*) ses)->nb_repair_symbols) )\n	{',
+      '	OF_TRACE_LVL (2, ("decode esi=%u\\n", new_symbol_esi))\n	if ( new_symbol_esi >= (((of_cb_t*) ses)->nb_source_symbols + ((of_cb_t*) ses)->nb_repair_symbols) )\n	{', expect=0),
+]
